@@ -43,7 +43,7 @@ fn setup(ctx: &mut Ctx) {
 }
 
 fn strata(t: Tier) -> Vec<Stratum> {
-    vec![st("generated-objects", scale(t, 12_000, 1_000_000, 4)), st("fabricated-headers", scale(t, 6_000, 400_000, 4))]
+    vec![st("generated-objects", scale(t, 720_000, 7_200_000, 4)), st("fabricated-headers", scale(t, 360_000, 3_600_000, 4))]
 }
 
 pub enum Expect {
